@@ -100,6 +100,18 @@ func (x *Exec) resolveTypeName(t string, pkg string) typeRes {
 			}
 		}
 	}
+	// a type declared inside a function body (type yBand struct{...}): accepted when the name is unique in the package
+	if p := x.P.ByName[pn]; p != nil {
+		var found []*types.TypeName
+		for id, obj := range p.TypesInfo.Defs {
+			if tn, ok := obj.(*types.TypeName); ok && id.Name == name && tn.Parent() != p.Types.Scope() {
+				found = append(found, tn)
+			}
+		}
+		if len(found) == 1 {
+			return typeRes{x.W.SortOf(found[0].Type()), found[0].Type()}
+		}
+	}
 	unsupported("unknown type %q in contract", t)
 	return typeRes{}
 }
